@@ -735,6 +735,7 @@ def ref_parse(data):
                 return fail(e.reason, line, line + 1 + raw.count(b'\n') + 1)
 
             rec['content'] = value
+            rec['inherited'] = enc[-1]
             rec['nlines'] = nlines
             rec['line_endings'] = le
             rec['span'] = (hstart, pos, pos + length)
